@@ -321,6 +321,27 @@ func c13Patch(r *rand.Rand) Case {
 			}
 		}
 	}
+	// an operation object may be executed more than once (loops clone it with the same value): what it
+	// inserts is a copy of its value every time
+	if vfMode == "" && err == nil && len(fail) == 0 && (rp.Op == "add" || rp.Op == "replace") && po.Value != nil {
+		if _, composite := rp.Val.(map[string]any); composite {
+			po2 := po
+			po2.Op, po2.Path = "add", "/zz_second"
+			if e2 := pipeline.New(pipeline.WithData(d)).Execute(&po2); e2 == nil {
+				expect := deepCopy(nodeToAny(d)).(map[string]any)
+				if second, ok := d.Child("zz_second").(dom.ContainerBuilder); ok {
+					second.AddValue("zz_probe", dom.LeafNode(1))
+					if em, ok := expect["zz_second"].(map[string]any); ok {
+						em["zz_probe"] = 1
+					}
+					if !reflect.DeepEqual(nodeToAny(d), any(expect)) {
+						fail = append(fail, "two executions of one patch operation inserted ONE shared node: a write below the second location showed at the first")
+					}
+				}
+				d.Remove("zz_second")
+			}
+		}
+	}
 	val := "None"
 	if vfMode == "only" {
 		val = "(Some " + gNode(rp.Val) + ")" // the document's own node at valueFrom, taken from the plain input
